@@ -297,6 +297,17 @@ class Engine(Interp, ExecMixin, EvalMixin, CallMixin, BuiltinMixin):
         st.old_heap = st.snapshot_heap()
         st.old_env = dict(env)
         st.fn_old_heap = st.old_heap
+        for h in c.hints:
+            # hint(term): an instantiation term offered to every quantified hypothesis of matching sort (soundness-neutral)
+            fr_h = Frame(dict(env), c.options.get("module"), qual)
+            fr_h.contract = c
+            st.frames.append(fr_h)
+            try:
+                hv = self.ev_spec(st, h)
+            finally:
+                st.frames.pop()
+            if isinstance(hv, Z):
+                st.index_terms.append(hv.e)
         entry_ids = list(st.heap.keys())
         if c.decreases is not None:
             d = self.ev_spec(st, c.decreases)
